@@ -659,6 +659,17 @@ func init() {
 							bad = append(bad, fmt.Sprintf("the URL stored into is not a single object: %v", owners.sorted()))
 						}
 						for v := range vals {
+							// the list the field already holds, stored back (`sp := u.searchParams; if sp == nil { sp = … };
+							// u.searchParams = sp`): nothing changes
+							self := false
+							for o := range owners {
+								if v == e.ext1(o, "Url:searchParams") {
+									self = true
+								}
+							}
+							if self {
+								continue
+							}
 							var back pset
 							loc := e.ext1(v, "SearchParams:url")
 							back = st.load(pset{loc: {}})
